@@ -17,6 +17,70 @@ var _ interface {
 	AddTwice(int) (int, int)
 } = (*Counter)(nil)
 
+var _ = Gauge{0, "", unit(""), [2]int{}, (*Gauge)(nil)}
+var _ interface {
+	Set(int)
+	Level() int
+	Title(string, string) string
+	Link(*Gauge) int
+} = (*Gauge)(nil)
+
+const rGaugeMax = 100
+
+type RGauge struct {
+	level int
+	name  string
+	u     unit
+	marks [2]int
+	peer  *RGauge
+}
+
+func (this *RGauge) Set(v int) {
+	if v > rGaugeMax {
+		v = rGaugeMax
+	}
+	this.marks[0], this.marks[1] = this.level, v
+	this.level = v
+}
+func (this *RGauge) Level() int { return this.level }
+func (this *RGauge) Title(n string, unitName string) string {
+	this.name = vxUpper(n)
+	this.u = unit(unitName)
+	return this.name + " " + string(this.u)
+}
+func (this *RGauge) Link(other *RGauge) int {
+	this.peer = other
+	if this.peer == nil {
+		return this.level
+	}
+	return this.level + this.peer.level + this.peer.marks[1]
+}
+
+func vxUpper(s string) string {
+	b := []byte(s)
+	for i, c := range b {
+		if 'a' <= c && c <= 'z' {
+			b[i] = c - 32
+		}
+	}
+	return string(b)
+}
+
+func RUseGauges(a, b int) int {
+	g1, g2 := &RGauge{}, &RGauge{}
+	g1.Set(a)
+	g2.Set(b)
+	g1.Set(a + 1)
+	return g1.Level()*1000 + g2.Level()*10 + g1.Link(g2) + g2.Link(nil) + g1.marks[0]
+}
+
+func RUseTitle(n, un string) string {
+	g := new(RGauge)
+	h := new(RGauge)
+	t := g.Title(n, un)
+	return t + "/" + h.name + "/" + string(g.u)
+}
+
 type RCounter struct {
 	n     int
 	label string
@@ -92,6 +156,16 @@ func VxC11() {
 		vxAssert(UseLabel(s, t) == RUseLabel(s, t), "class file program (string fields) differs from its explicit struct form")
 	case 2:
 		vxAssert(TwoCounters(a, b) == RTwoCounters(a, b), "two instances of a class share state or differ from the explicit struct form")
+	case 4:
+		a2 := vxIntRange(80, 120)
+		vxAssert(UseGauges(a2, b) == RUseGauges(a2, b), "class file with const/type declarations before its var block differs from its explicit struct form (two instances)")
+	case 5:
+		n := vxString(vxConcrete(vxIntRange(0, 2)))
+		for i := 0; i < len(n); i++ {
+			vxAssume(n[i] < 0x80)
+		}
+		un := vxString(vxConcrete(vxIntRange(0, 1)))
+		vxAssert(UseTitle(n, un) == RUseTitle(n, un), "class file (string and named-type fields) differs from its explicit struct form")
 	case 3:
 		// method-level comparison from an arbitrary field state
 		c := &Counter{n: a, label: "x", hist: []int{b}, seen: map[int]bool{q: true}}
